@@ -959,6 +959,9 @@ typedef struct {
 	uint16_t version_min;
 	uint16_t version_max;
 	uint16_t suites_buf[BR_MAX_CIPHER_SUITES];
+#ifdef BR_VERIF
+	unsigned char verif_guard_suites_buf[16];
+#endif
 	unsigned char suites_num;
 
 	/*
@@ -981,6 +984,9 @@ typedef struct {
 	 */
 	unsigned char ecdhe_curve;
 	unsigned char ecdhe_point[133];
+#ifdef BR_VERIF
+	unsigned char verif_guard_ecdhe_point[16];
+#endif
 	unsigned char ecdhe_point_len;
 
 	/*
@@ -995,6 +1001,9 @@ typedef struct {
 	 */
 	unsigned char reneg;
 	unsigned char saved_finished[24];
+#ifdef BR_VERIF
+	unsigned char verif_guard_saved_finished[16];
+#endif
 
 	/*
 	 * Behavioural flags.
@@ -3441,6 +3450,9 @@ struct br_ssl_server_context_ {
 	 * client message.
 	 */
 	br_suite_translated client_suites[BR_MAX_CIPHER_SUITES];
+#ifdef BR_VERIF
+	unsigned char verif_guard_client_suites[16];
+#endif
 	unsigned char client_suites_num;
 
 	/*
